@@ -148,8 +148,14 @@ def run(inp, outp):
             alarms = {}
             try:
                 def one(p):
-                    r = subprocess.run([os.path.join(VERIF, 'bin', 'rsv'), 'check', p, '--tier', 'quick'], cwd=VERIF,
-                                       stdout=subprocess.PIPE, stderr=subprocess.STDOUT, timeout=3600)
+                    try:
+                        r = subprocess.run([os.path.join(VERIF, 'bin', 'rsv'), 'check', p, '--tier', 'quick'], cwd=VERIF,
+                                           stdout=subprocess.PIPE, stderr=subprocess.STDOUT, timeout=900)
+                    except subprocess.TimeoutExpired:
+                        # a mutant that makes the library loop: the check does not finish (it would, after
+                        # its own per-case time-outs, with a violation)
+                        subprocess.run("pkill -f '%s/.build/target/[a-z]*/obs'" % VERIF, shell=True)
+                        return p, 124, 'check did not finish within 900 s'
                     out = r.stdout.decode('utf-8', 'replace')
                     v = [l for l in out.split('\n') if l.startswith('VIOLATION')]
                     return p, r.returncode, (v[0] if v else '')
